@@ -351,6 +351,24 @@ def run(ck: core.Check, prove: bool = True):
                     if want != r["internal_verdict"]:
                         mismatch("error-class of build_main", ap, r["internal_verdict"], want)
                 if m.get("ok"):
+                    # the bridge to C01's program model, evaluated by the driver on this case:
+                    # the emission rendered as a Prog.EGraph is the same emission, the translated
+                    # program is well-formed, and validG agrees with the structural rule (hence
+                    # with the real checker, compared above)
+                    stats["bridge_checked"] = stats.get("bridge_checked", 0) + 1
+                    stats["bridge_valid"] = stats.get("bridge_valid", 0) + int(bool(m.get("bridge_valid")))
+                    if not m.get("bridge_same_emission") or not m.get("bridge_wf"):
+                        mismatch("bridge: toEGraph/toProg of the model's emission", ap,
+                                 {"same_emission": m.get("bridge_same_emission"), "wf": m.get("bridge_wf")}, None)
+                    stats["bridge_leak_free"] = stats.get("bridge_leak_free", 0) + int(bool(m.get("leak_free")))
+                    # the instance of theorem build_valid_checked on this case, executed: WFb, build ok,
+                    # leakFreeB  ==>  validG; conversely an accepted emission is leak-free
+                    if m.get("wf") and m.get("leak_free") and not m.get("bridge_valid"):
+                        mismatch("bridge: build_valid instance (leak-free build not accepted by validG)", ap, None, None)
+                    if m.get("bridge_valid") and not m.get("leak_free"):
+                        mismatch("bridge: accepted emission is not leak-free", ap, None, None)
+                    if bool(m.get("bridge_valid")) != bool(m.get("struct_ok")):
+                        mismatch("bridge: Prog.validG vs structural rule", ap, m.get("struct_ok"), m.get("bridge_valid"))
                     mf = L.model_facets(m)
                     if r["trace"] is not None:
                         stats["facets_compared"]["trace"] = stats["facets_compared"].get("trace", 0) + 1
